@@ -44,6 +44,9 @@ def configs(tier, seed):
             for pd in ("p", "r", "pr", "rp"):
                 out.append(dict(h="labels_real", op=kind + lt, key=f"labels_real/{kind}/{lt}/prm_over={pd}", kind=kind, grid="uneven", n=3, extra={"p": 2, "r": 2},
                                 lt=lt, prm=prm, pd=pd))
+    for kind in ("idsm", "sdsm_manual"):
+        for lt, prm in (REAL[0], REAL[1]):
+            out.append(dict(h="labels_ndarray", op=kind + lt, key=f"labels_ndarray/{kind}/{lt}/n=3/r3", kind=kind, grid="uneven", n=3, extra={"r": 3}, lt=lt, prm=prm))
     for grid in dsm.GRIDS:
         for n in ns:
             out.append(dict(h="impulse", op="idsm", key=f"impulse/idsm/grid={grid}/n={n}", kind="idsm", grid=grid, n=n, extra={"r": 2}))
@@ -119,6 +122,43 @@ def _labels_real(cfg, w, y, D):
                 w.ob_eq(f"label{list(lab)}:{k}{list(idx)}", part[idx], o[idx], chain=kind.startswith("sdsm"))
 
 
+def _labels_ndarray(cfg, w, y, D):
+    """parameters handed over as plain numpy vectors with one value per label (numpy broadcasting over the last
+    dimension), the number of labels being equal to the number of time steps: still one lifetime per label"""
+    import flodym.lifetime_models as lm
+
+    kind, lt = cfg["kind"], cfg["lt"]
+    dims = dsm.make_dims(y, cfg["extra"])
+    nlab = dims.shape[1]
+    P = {}
+    for name in cfg["prm"]:
+        A = w.arr("prm_" + name, (nlab,), default=lambda idx, name=name: {"mean": 3.0, "std": 1.0}[name] * (1 + 0.4 * idx[0]))
+        for x in A.flat:
+            w.assume(w.gt(x, 0))
+        P[name] = A
+    for how in ("ctor", "set_prms"):
+        if how == "ctor":
+            model = getattr(lm, lt)(dims=dims, **{k: v.copy() for k, v in P.items()})
+        else:
+            model = getattr(lm, lt)(dims=dims)
+            model.set_prms(**{k: v.copy() for k, v in P.items()})
+        st = dsm.build_stock(kind, dims, lifetime=model, **({"inflow": D} if kind == "idsm" else {"stock": D}))
+        st.compute()
+        full = _results(st)
+        dims1 = dsm.make_dims(y, {})
+        for j in range(nlab):
+            prm1 = {k: v[j] for k, v in P.items()}
+            s1 = dsm.build_stock(kind, dims1, lifetime=getattr(lm, lt)(dims=dims1, **prm1), **({"inflow": D[:, j]} if kind == "idsm" else {"stock": D[:, j]}))
+            s1.compute()
+            one = _results(s1)
+            for k in one:
+                a = np.asarray(full[k])
+                part = a[:, j] if a.ndim == 2 else a[:, :, j]
+                o = np.asarray(one[k])
+                for idx in np.ndindex(*o.shape):
+                    w.ob_eq(f"{how}:label[{j}]:{k}{list(idx)}", part[idx], o[idx], chain=kind.startswith("sdsm"))
+
+
 def run(cfg, w):
     import flodym.lifetime_models as lm
 
@@ -156,7 +196,7 @@ def run(cfg, w):
             for idx in np.ndindex(*np.shape(res[0][k])):
                 w.ob_eq(f"shift_invariant:{k}{list(idx)}", res[1][k][idx], res[0][k][idx])
         return
-    if h == "labels_real":
+    if h in ("labels_real", "labels_ndarray"):
         tab = None
     else:
         tab = dsm.sf_table(w, n, shape[1:], constrain=("range",), diag_min=(0.05 if chain else None))
@@ -164,6 +204,8 @@ def run(cfg, w):
     w.set_scale(D)
     if h == "labels_real":
         return _labels_real(cfg, w, y, D)
+    if h == "labels_ndarray":
+        return _labels_ndarray(cfg, w, y, D)
     if h == "causal":
         t0 = cfg["t0"]
         D2 = D.copy()
